@@ -170,6 +170,17 @@ Definition wf_instr (asize : nat) (i : instr) : bool :=
 
 Definition wf_instrs (asize : nat) (is : list instr) : bool := forallb (wf_instr asize) is.
 
+(* the part of well-formedness the table semantics needs: the operand embedded in the opcode
+   byte has 6 bits (all other operands are unbounded integers there) *)
+Definition low6_ok (i : instr) : bool :=
+  match i with
+  | I_advance_loc d => (0 <=? d) && (d <? 64)
+  | I_offset r _ => (0 <=? r) && (r <? 64)
+  | I_restore r => (0 <=? r) && (r <? 64)
+  | _ => true
+  end.
+Definition low6_all (is : list instr) : bool := forallb low6_ok is.
+
 (* DW_CFA_set_loc: in .eh_frame the operand is encoded with the CIE's pointer encoding
    (a GNU convention outside DWARF); the property's domain keeps set_loc to sections where
    that encoding is the plain target address. *)
